@@ -39,6 +39,8 @@ func main() {
 		os.Exit(2)
 	}
 	switch os.Args[1] {
+	case "idletest":
+		idleTest()
 	case "worker":
 		workerMain(os.Args[2])
 	case "run":
@@ -93,7 +95,15 @@ func workerMain(kind string) {
 	for {
 		line, err := in.ReadBytes('\n')
 		if len(bytes.TrimSpace(line)) > 0 {
+			caseT0 := time.Now()
 			res, herr := h(ctx, bytes.TrimSpace(line))
+			if f := os.Getenv("RSVERIF_DBG"); f != "" && time.Since(caseT0) > 3*time.Second {
+				// debugging aid: which scenarios are slow
+				if fh, err := os.OpenFile(f, os.O_APPEND|os.O_CREATE|os.O_WRONLY, 0o644); err == nil {
+					fmt.Fprintf(fh, "%.1fs goroutines=%d %s\n", time.Since(caseT0).Seconds(), runtime.NumGoroutine(), bytes.TrimSpace(line))
+					fh.Close()
+				}
+			}
 			if herr != nil {
 				res = map[string]any{"harness_error": herr.Error(), "scn": json.RawMessage(bytes.TrimSpace(line))}
 			}
@@ -215,7 +225,7 @@ func runMain(kind string, args []string) {
 	var outMu sync.Mutex
 	lines := make(chan []byte, 64)
 	var wg sync.WaitGroup
-	var crashed, timedOut int64
+	var crashed, timedOut, retried int64
 	var cmu sync.Mutex
 	for i := 0; i < *nw; i++ {
 		wg.Add(1)
@@ -228,47 +238,71 @@ func runMain(kind string, args []string) {
 				}
 			}()
 			for line := range lines {
-				if c == nil {
-					var err error
-					c, err = startChild(kind)
-					if err != nil {
-						fmt.Fprintln(os.Stderr, "start worker:", err)
-						os.Exit(2)
-					}
-				}
 				type resp struct {
 					b   []byte
 					err error
 				}
-				ch := make(chan resp, 1)
-				cc := c
-				go func() {
-					if _, err := cc.stdin.Write(append(line, '\n')); err != nil {
-						ch <- resp{nil, err}
-						return
-					}
-					b, err := cc.stdout.ReadBytes('\n')
-					ch <- resp{b, err}
-				}()
 				var r resp
-				to := false
-				select {
-				case r = <-ch:
-				case <-time.After(*perCase):
-					to = true
-					// collect goroutine dump: SIGQUIT makes the Go runtime print stacks
-					cc.cmd.Process.Signal(sigquit)
-					time.Sleep(500 * time.Millisecond)
-					cc.cmd.Process.Kill()
-					r = <-ch
-				}
-				if r.err != nil || to {
+				// A case whose handler does not return in time is tried once more in a
+				// fresh worker with three times the limit: only a second time-out is
+				// reported as "hung" (a slow machine is not an observation).
+				for attempt := 0; attempt < 2; attempt++ {
+					if c == nil {
+						var err error
+						c, err = startChild(kind)
+						if err != nil {
+							fmt.Fprintln(os.Stderr, "start worker:", err)
+							os.Exit(2)
+						}
+					}
+					limit := *perCase
+					if attempt > 0 {
+						limit *= 3
+					}
+					ch := make(chan resp, 1)
+					cc := c
+					go func() {
+						if _, err := cc.stdin.Write(append(line, '\n')); err != nil {
+							ch <- resp{nil, err}
+							return
+						}
+						b, err := cc.stdout.ReadBytes('\n')
+						ch <- resp{b, err}
+					}()
+					to := false
+					select {
+					case r = <-ch:
+					case <-time.After(limit):
+						to = true
+						// collect goroutine dump: SIGQUIT makes the Go runtime print stacks
+						cc.cmd.Process.Signal(sigquit)
+						time.Sleep(500 * time.Millisecond)
+						cc.cmd.Process.Kill()
+						r = <-ch
+					}
+					if r.err == nil && !to {
+						if bytes.Contains(r.b, []byte(`"retire_worker":true`)) {
+							// the case left a victim behind that still runs (or hangs) in this
+							// worker: the next case gets a fresh process
+							cc.cmd.Process.Kill()
+							cc.cmd.Wait()
+							cc.rmdir()
+							c = nil
+						}
+						break
+					}
 					// worker died (or was killed): that is an observation
 					cc.cmd.Wait()
 					death := deathSnapshot(line, cc.dir)
 					cc.rmdir()
 					st := cc.stderr.String()
 					c = nil
+					if to && attempt == 0 {
+						cmu.Lock()
+						retried++
+						cmu.Unlock()
+						continue
+					}
 					obs := map[string]any{
 						"scn":     json.RawMessage(line),
 						"crashed": !to,
@@ -287,6 +321,7 @@ func runMain(kind string, args []string) {
 						crashed++
 					}
 					cmu.Unlock()
+					break
 				}
 				outMu.Lock()
 				out.Write(r.b)
@@ -318,7 +353,7 @@ func runMain(kind string, args []string) {
 	wg.Wait()
 	out.Flush()
 	outF.Close()
-	fmt.Printf("{\"cases\":%d,\"crashed\":%d,\"hung\":%d}\n", n, crashed, timedOut)
+	fmt.Printf("{\"cases\":%d,\"crashed\":%d,\"hung\":%d,\"retried\":%d}\n", n, crashed, timedOut, retried)
 }
 
 func tail(s string, n int) string {
@@ -326,4 +361,139 @@ func tail(s string, n int) string {
 		return s[len(s)-n:]
 	}
 	return s
+}
+
+// ---------------------------------------------------------------- idleness
+//
+// Verdicts such as "the session hangs" or "the victim waits for input that
+// will never come" must not depend on how fast this machine happens to be:
+// a loaded machine makes a healthy session slow, not idle.  The session is
+// idle when no goroutine that executes code of the system under test or of the
+// harness's protocol peers (any frame from github.com/gokrazy/rsync/...) is
+// running, runnable or inside a system call: they are all parked on channels,
+// condition variables, timers or the network poller.  The states come from a
+// consistent goroutine dump (runtime.Stack stops the world for it, so ONE
+// sampler per process takes them, every idleTick, and only while somebody
+// waits).  idleAfter(d) fires when the idleness score (+1 per idle sample, -1
+// per busy one, floor 0) reaches d / idleTick.  "rsverif idletest x"
+// calibrates: parked goroutines are seen idle by every sample, a spinning one
+// by none.
+
+var idleBuf = make([]byte, 1<<20)
+var idleBufMu sync.Mutex
+
+func sessionIdle() bool {
+	idleBufMu.Lock()
+	defer idleBufMu.Unlock()
+	var buf []byte
+	for {
+		n := runtime.Stack(idleBuf, true)
+		if n < len(idleBuf) {
+			buf = idleBuf[:n]
+			break
+		}
+		idleBuf = make([]byte, 2*len(idleBuf))
+	}
+	for _, g := range bytes.Split(buf, []byte("\n\ngoroutine ")) {
+		nl := bytes.IndexByte(g, '\n')
+		if nl < 0 {
+			continue
+		}
+		head := g[:nl]
+		i, j := bytes.IndexByte(head, '['), bytes.IndexByte(head, ']')
+		if i < 0 || j < i {
+			continue
+		}
+		state := head[i+1 : j]
+		if k := bytes.IndexByte(state, ','); k >= 0 {
+			state = state[:k]
+		}
+		if s := string(state); s != "running" && s != "runnable" && s != "syscall" {
+			continue
+		}
+		body := g[nl:]
+		if bytes.Contains(body, []byte("main.sessionIdle")) {
+			continue // the sampler itself
+		}
+		if bytes.Contains(body, []byte("gokrazy/rsync")) || bytes.Contains(body, []byte("main.idleSpin")) {
+			return false
+		}
+	}
+	return true
+}
+
+const idleTick = 50 * time.Millisecond
+
+func idleScore(score int, idle bool) int {
+	if idle {
+		return score + 1
+	}
+	if score < 1 {
+		return 0
+	}
+	return score - 1
+}
+
+// One sampler serves all waiters: it runs while somebody waits.  A waiter
+// abandoned by its select (the awaited event came first) is released as soon
+// as the process has been idle long enough - at the latest between two cases.
+var idleState struct {
+	mu      sync.Mutex
+	running bool
+	waiters []*idleWaiter
+}
+
+type idleWaiter struct {
+	need  int
+	score int
+	ch    chan time.Time
+}
+
+func idleSampler() {
+	for {
+		time.Sleep(idleTick)
+		idle := sessionIdle()
+		idleState.mu.Lock()
+		keep := idleState.waiters[:0]
+		for _, w := range idleState.waiters {
+			w.score = idleScore(w.score, idle)
+			if w.score >= w.need {
+				w.ch <- time.Now()
+			} else {
+				keep = append(keep, w)
+			}
+		}
+		idleState.waiters = keep
+		if len(keep) == 0 {
+			idleState.running = false
+			idleState.mu.Unlock()
+			return
+		}
+		idleState.mu.Unlock()
+	}
+}
+
+// idleAfter returns a channel that receives once the process has been idle
+// for d.
+func idleAfter(d time.Duration) <-chan time.Time {
+	w := &idleWaiter{need: int(d / idleTick), ch: make(chan time.Time, 1)}
+	if w.need < 3 {
+		w.need = 3
+	}
+	idleState.mu.Lock()
+	idleState.waiters = append(idleState.waiters, w)
+	if !idleState.running {
+		idleState.running = true
+		go idleSampler()
+	}
+	idleState.mu.Unlock()
+	return w.ch
+}
+
+// idleMeter scores idleness for polling loops (one sample per idleTick).
+type idleMeter struct{ n int }
+
+func (m *idleMeter) sample() time.Duration {
+	m.n = idleScore(m.n, sessionIdle())
+	return time.Duration(m.n) * idleTick
 }
